@@ -8,6 +8,11 @@ CHECKS = {
    technique="TLA+ spec ParticleStore checked by TLC; state-graph replay into C and Python APIs; trace validation of random histories",
    text="TLC exhaustively checks the ParticleStore design (add/remove x4 paths/hash lookup table/N_active) against a reference list model for MaxN=3, 3 hashes incl. 0 and duplicates, depth 5 (quick) / 6-7 (thorough), with and without tree and hybrid integrator. The dumped state graph is then walked against the real library: for every (state, action) pair reachable by the implementation, through the C API and through the Python particles container, the projected implementation state (particles, N_active, return value, error flag, lookup table) must be a spec successor. Seeded random histories of 250-1200 calls with up to 300 particles (crossing the 128/256 growth boundaries) are validated by TLC against Trace_ParticleStore with all invariants evaluated on every state.",
    note="Ids ride in the particle mass; N_active is not modelled together with a tree; qsort order among equal hashes abstracted (any matching entry may be found); memory-safety clause only as far as ASan/UBSan sees the thorough tier's histories."),
+ "C08": dict(
+   category="model_checking", design_ref="DESIGN.md 4/C08",
+   technique="TLA+ spec Integrate (integrate loop + reb_check_exit + exit conditions) checked by TLC incl. liveness; model paths replayed into C and Python front ends; hook traces of every integrator validated against Trace_Integrate",
+   text="TLC checks Integrate exhaustively on a tick lattice for fixed-step and adaptive kinds (both directions, steps larger than the interval, targets before/after/equal, exact finishing on/off, two consecutive calls, an exit condition or loss of all particles at any boundary, rejected adaptive steps): ends at target / overshoot < one step / time monotone / right direction / dt restored / no-op / step count implied by dt / status names the first boundary / no step after exit, and termination under weak fairness. Binding: every root-to-leaf path of a dumped fixed-step model (quick ~2500 sampled, thorough all) is executed on nine fixed-step integrators through the C API and sim.integrate (exception class per status) and t, dt, status and step count after each call must equal the model's; hook traces (int_begin/check_exit/step/int_end) of ~14 scenarios x 20 integrator configurations (dyadic and non-dyadic steps, split partitions with digest comparison, injected user-stop/escape/encounter/no-particles events evaluated by the harness on the same state, pericentre passages with step-size floor) are validated by TLC against Trace_Integrate with every contract invariant evaluated in every state.",
+   note="Doubles are abstracted to ranks (order and equality exact); t+dt, tmax-t, -dt and the 1e-12 test are evaluated by the harness in binary64 from logged operands. Collisions as exit condition are inferred from the logged status (no independent oracle here; C13 covers detection). Split invariance is checked for default safe_mode, one direction, no exit event."),
  "C06": dict(
    category="model_checking", design_ref="DESIGN.md 4/C06",
    technique="TLA+ specs ArchiveDelta (delta encoder/loader) and Cadence (auto-snapshot protocol) checked by TLC; real archive histories validated against Trace_ArchiveDelta; TLC-simulated Cadence behaviours replayed into the library",
